@@ -1,4 +1,4 @@
-(* C20 - refinement: on every quiescent history the model (index vectors,
+(* C20 - refinement: on every nocross history the model (index vectors,
    inv_map, snapshots, value slots, pending ring) produces exactly the records
    of the abstract specification MidiSpec.astep (finite map controller ->
    (address, kind), FIFO of waiting addresses, 7-bit values) *)
@@ -516,7 +516,7 @@ End Sim.
 Lemma refine_run : forall U ports, (length U <= 32)%nat ->
   forall evs w al pend tg tr fin,
   Inv U ports w pend tg -> Rel w al -> Forall (ev_ok U) evs -> Forall (evok ports) evs ->
-  run ports w evs = (tr, fin) -> quiescent_from pend tg evs tr = true ->
+  run ports w evs = (tr, fin) -> nocross_from pend tg evs tr = true ->
   map (map erase) tr = map (map erase) (arun ports al evs).
 Proof.
   intros U ports US. induction evs as [| e es IH]; intros w al pend tg tr fin HI HR E1 E2 Hr Hq.
@@ -525,7 +525,7 @@ Proof.
     destruct (Inv_step U ports w pend tg e US HI H1 H3) as [w' [o [S Nx]]].
     cbn [run] in Hr. rewrite S in Hr. destruct (run ports w' es) as [tr' fin'] eqn:R.
     inversion Hr; subst tr fin; clear Hr.
-    rewrite quiescent_from_step in Hq.
+    rewrite nocross_from_step in Hq.
     destruct (qstep pend tg e o) as [[p' tg'] |] eqn:Q; [| discriminate].
     destruct (Rel_step U US ports w al pend tg e w' o HR HI H1 H3 S) as [Eo HR'].
     cbn [arun]. destruct (astep ports al e) as [al' o'] eqn:A. cbn [fst snd] in Eo, HR'.
@@ -533,15 +533,15 @@ Proof.
     apply (IH w' al' p' tg' tr' fin' (Nx _ _ eq_refl) HR' H2 H4 R Hq).
 Qed.
 
-(* Every quiescent history (<= 32 controllers, 7-bit values, mapped addresses in
+(* Every nocross history (<= 32 controllers, 7-bit values, mapped addresses in
    the port table): the model's records are those of the abstract
    specification, event by event - the same queue traffic, the same
    assignments (controller, address, kind), a parameter message exactly where
    the abstract table has the controller and to the address it says (erase
    drops only the value a message carries). *)
-Theorem refine_quiescent : forall ports evs tr fin U,
+Theorem refine_nocross : forall ports evs tr fin U,
   (length U <= 32)%nat -> incl (ccids evs) U -> Forall (evok ports) evs ->
-  run ports world0 evs = (tr, fin) -> quiescent evs tr = true ->
+  run ports world0 evs = (tr, fin) -> nocross evs tr = true ->
   map (map erase) tr = map (map erase) (arun ports astate0 evs).
 Proof.
   intros ports evs tr fin U US Hi He Hr Hq.
@@ -559,5 +559,5 @@ Lemma refine_example_with_values :
                EMap 1 false; EDelR; ECC 6 3 1 false; EDelN; EDelR; ECC 6 5 1 false;
                EMap 0 true; EDelR; ECC 7 9 1 false; EDelN; EDelR; ECC 7 100 1 false; ECC 5 2 1 false;
                EUnmap 1 true; EDelR; ECC 5 1 1 false; ECC 6 77 1 false; EClear; EDelR; ECC 6 1 1 false ] in
-  fst (run ports world0 evs) = arun ports astate0 evs /\ quiescent evs (fst (run ports world0 evs)) = true.
+  fst (run ports world0 evs) = arun ports astate0 evs /\ nocross evs (fst (run ports world0 evs)) = true.
 Proof. vm_compute. split; reflexivity. Qed.
